@@ -56,8 +56,8 @@ ASSUMPTIONS = [
     "`names` and `pipelines` have no single-value form (class docstrings and the repository's own tests require "
     "TypeError / per-observer lists); BolometerCamera documents list-only foil_detectors assignment",
 ]
-QUICK = dict(cases=700, workers=2, timecap=40)
-THOROUGH = dict(cases=120000, workers=16, timecap=540)
+QUICK = dict(cases=3000, workers=2, timecap=30)
+THOROUGH = dict(cases=300000, workers=16, timecap=540)
 REQUIRED = {"assign_scalar": 300, "assign_seq": 600, "wronglen": 600, "getter": 1500, "snapshot_members": 3000,
             "lookup_index": 500, "lookup_slice": 300, "lookup_name": 200, "invariant": 3000, "hook_invariant": 3000,
             "foreign": 100, "observe_members": 50, "history_ops": 2000, "registry": 7}
@@ -142,6 +142,7 @@ def _state():
     from raysect.core.workflow import SerialEngine
     from raysect.optical import World
     from raysect.primitive import Sphere
+    from raysect.optical.material import AbsorbingSurface
     from raysect.optical.observer import (SightLine, FibreOptic, Pixel, TargettedPixel, PowerPipeline0D,
                                           RadiancePipeline0D, SpectralPowerPipeline0D, SpectralRadiancePipeline0D,
                                           PowerPipeline2D)
@@ -186,7 +187,7 @@ def _state():
     inv.install(record, post=False)
     classes = inv.load_classes()
     _S.update(Node=Node, Point3D=Point3D, Vector3D=Vector3D, AffineMatrix3D=AffineMatrix3D, translate=translate,
-              SerialEngine=SerialEngine, World=World, Sphere=Sphere, SightLine=SightLine, FibreOptic=FibreOptic,
+              SerialEngine=SerialEngine, World=World, Sphere=Sphere, AbsorbingSurface=AbsorbingSurface, SightLine=SightLine, FibreOptic=FibreOptic,
               Pixel=Pixel, TargettedPixel=TargettedPixel, PowerPipeline0D=PowerPipeline0D,
               RadiancePipeline0D=RadiancePipeline0D, SpectralPowerPipeline0D=SpectralPowerPipeline0D,
               SpectralRadiancePipeline0D=SpectralRadiancePipeline0D,
@@ -208,7 +209,10 @@ def worker_init(ctx):
 def _props(cname):
     """Introspected properties of a group class: name -> property object."""
     S = _state()
-    return dict(inspect.getmembers(S["classes"][cname], lambda o: isinstance(o, property)))
+    cache = S.setdefault("_props", {})
+    if cname not in cache:      # the classes are patched once (worker_init) and never change afterwards
+        cache[cname] = dict(inspect.getmembers(S["classes"][cname], lambda o: isinstance(o, property)))
+    return cache[cname]
 
 
 def _broadcast_attrs(cname):
@@ -381,7 +385,7 @@ def _gen_history(rng, cname, tier):
             via = paths["set"][int(rng.integers(len(paths["set"])))]
             kind = "list" if cname == CAMERA else ["list", "tuple"][int(rng.integers(2))]
             ops.append({"op": "set_members", "ms": ms, "via": via, "kind": kind})
-            members = ms
+            members = list(ms)
         elif r < 0.55 and attrs:
             a = attrs[int(rng.integers(len(attrs)))]
             if a in ATTRS:
@@ -542,6 +546,7 @@ class Env:
         self.members = []                      # the harness's own member list (model of membership + order)
         self.pool = {}
         self.slits = {}
+        self.geom_margin = 0.0
 
     # -- object pools -------------------------------------------------------------------------
     def engine(self, i):
@@ -551,7 +556,8 @@ class Env:
 
     def prim(self, i):
         if i not in self.prims:
-            self.prims[i] = self.S["Sphere"](0.01, parent=self.world, transform=self.S["translate"](0.1 * i, 0.3, 1.0))
+            self.prims[i] = self.S["Sphere"](0.01, parent=self.world, transform=self.S["translate"](0.1 * i, 0.3, 1.0),
+                                             material=self.S["AbsorbingSurface"]())
         return self.prims[i]
 
     def pipeline(self, kind):
@@ -661,8 +667,21 @@ def _canon(v, env):
     return ("O", id(v))
 
 
+_PUBLIC = {}
+
+
 def _public_names(m):
-    return [n for n in dir(m) if not n.startswith("_") and n not in SNAP_EXCLUDE]
+    """Public attribute names of a member: dir() of its type (cached) plus instance attributes."""
+    t = type(m)
+    if t not in _PUBLIC:
+        _PUBLIC[t] = [n for n in dir(t) if not n.startswith("_") and n not in SNAP_EXCLUDE]
+    names = _PUBLIC[t]
+    d = getattr(m, "__dict__", None)
+    if d:
+        extra = [n for n in d if not n.startswith("_") and n not in SNAP_EXCLUDE and n not in names]
+        if extra:
+            names = names + sorted(extra)
+    return names
 
 
 def snap_member(m, env):
@@ -719,11 +738,17 @@ def _expected_read_ok(env, attr, member, v):
     if ty in ("prims", "pipes"):
         return (len(got) == len(v) and all(g is w for g, w in zip(got, v))), repr(got)
     if ty == "point":
+        # origin is read back through the member's transform (translate * rotate_basis): a few ulp at most
         tol = 1e-12 * (1.0 + max(abs(v.x), abs(v.y), abs(v.z)))
-        return _close3((got.x, got.y, got.z), (v.x, v.y, v.z), tol), repr(got)
+        err = max(abs(got.x - v.x), abs(got.y - v.y), abs(got.z - v.z))
+        env.geom_margin = max(env.geom_margin, err / tol)
+        return err <= tol, repr(got)
     if ty == "vector":
+        # direction is normalised by rotate_basis and read back as the image of the z axis: a few ulp of a unit vector
         L = (v.x * v.x + v.y * v.y + v.z * v.z) ** 0.5
-        return _close3((got.x, got.y, got.z), (v.x / L, v.y / L, v.z / L), 1e-12), repr(got)
+        err = max(abs(got.x - v.x / L), abs(got.y - v.y / L), abs(got.z - v.z / L))
+        env.geom_margin = max(env.geom_margin, err / 1e-12)
+        return err <= 1e-12, repr(got)
     return _veq(got, v), repr(got)
 
 
@@ -849,11 +874,13 @@ def _collateral(env, ctx, attr, before, after, kindkey):
             return
         # derived geometric attributes of the spectroscopic observers: the *other* one must survive within rounding
         if attr == "origin" and "direction" in b:
+            env.geom_margin = max(env.geom_margin, max(abs(x - y) for x, y in zip(b["direction"][1:], a["direction"][1:])) / 1e-12)
             if not _close3(b["direction"][1:], a["direction"][1:], 1e-12):
                 ctx.viol("%s:%s.origin:direction-not-preserved" % (kindkey, cn), "setting origin changed the direction of member %d" % j)
                 return
         if attr == "direction" and "origin" in b:
             sc = 1e-12 * (1 + max(abs(x) for x in b["origin"][1:]))
+            env.geom_margin = max(env.geom_margin, max(abs(x - y) for x, y in zip(b["origin"][1:], a["origin"][1:])) / sc)
             if not _close3(b["origin"][1:], a["origin"][1:], sc):
                 ctx.viol("%s:%s.direction:origin-not-preserved" % (kindkey, cn), "setting direction changed the origin of member %d" % j)
                 return
@@ -891,6 +918,9 @@ def op_assign(env, ctx, op):
             ctx.viol(tag + ":member-value", "after group.%s = <%s>, member %d holds %s (expected %r)" % (attr, kind, j, got, v), n=n)
             break
     _collateral(env, ctx, attr, before, after, kindkey)
+    if t["type"] in ("point", "vector") and n:
+        ctx.mon("geom_roundtrip", n)
+        ctx.margin("geom_roundtrip", env.geom_margin)
     if n:
         ctx.nontrivial()
     check_getter(env, ctx, attr)
@@ -1108,10 +1138,12 @@ def op_observe(env, ctx, op):
         m.quiet = True
         m.spectral_rays = 1
         m.spectral_bins = op["bins"]
+        m.ray_max_depth = 10                 # Raysect's Ray (not the observer) rejects min depth < 1 / max depth < min depth
+        m.ray_extinction_min_depth = 2
         m.pixel_samples = op["ps"]
         if isinstance(m, S["BolometerIRVB"]):
             has_irvb = True
-            c = S["CountingPower2D"](accumulate=True)
+            c = S["CountingPower2D"](accumulate=True, display_progress=False)
         else:
             m.samples_per_task = op["spt"]
             c = S["CountingPower0D"](accumulate=True)
